@@ -332,6 +332,9 @@ class Session:
         return res
 
     def do_apply(self, op, ns, evs):
+        if op["obj"] not in ns and op["obj"] not in ns.dead:
+            # no such object (only in plans cut down by the minimiser): nothing to judge
+            return {"r": "skip", "why": "no-object"}
         if op["obj"] in ns.dead or op["obj"] not in ns:
             return {"r": "skip"}
         if op["ev"] not in evs:
